@@ -9,6 +9,7 @@ import (
 	"fmt"
 	"io/ioutil"
 	"log"
+	"math/rand"
 	"os"
 	"os/user"
 	"path"
@@ -91,7 +92,7 @@ func (h *DirHandler) AddOut(msg *fbb.Message) error {
 		return err
 	}
 
-	return ioutil.WriteFile(path.Join(h.MBoxPath, DIR_OUTBOX, msg.MID()+Ext), data, 0644)
+	return writeFileAtomic(path.Join(h.MBoxPath, DIR_OUTBOX, msg.MID()+Ext), data, 0644)
 }
 
 func (h *DirHandler) ProcessInbound(msgs ...*fbb.Message) (err error) {
@@ -109,7 +110,7 @@ func (h *DirHandler) ProcessInbound(msgs ...*fbb.Message) (err error) {
 			return err
 		}
 
-		if err = ioutil.WriteFile(filename, data, 0664); err != nil {
+		if err = writeFileAtomic(filename, data, 0664); err != nil {
 			return fmt.Errorf("Unable to write received message (%s): %s", filename, err)
 		}
 	}
@@ -243,7 +244,72 @@ func countFiles(dirPath string) int {
 		return -1
 	}
 
-	return len(files)
+	// Don't count hidden files (e.g. a temporary file left behind by an
+	// interrupted writeFileAtomic). LoadMessageDir ignores them as well.
+	var n int
+	for _, file := range files {
+		if file.Name()[0] != '.' {
+			n++
+		}
+	}
+	return n
+}
+
+// writeFileAtomic writes data to the named file, like ioutil.WriteFile, but
+// makes sure the file is never observed half-written.
+//
+// The data is written to a temporary file in the same directory which is
+// renamed to filename once it is complete. If we are interrupted (crash, full
+// disk...), an existing file is left untouched and a new file does not appear
+// at all. The existence of <MID>.b2f is what marks a message as received, so
+// a partial file would both break loading of the directory and cause the real
+// message to be rejected as a duplicate.
+//
+// The temporary file name starts with a dot and does not end with Ext, so a
+// stale one is ignored by LoadMessageDir and countFiles.
+func writeFileAtomic(filename string, data []byte, perm os.FileMode) (err error) {
+	dir, name := filepath.Split(filename)
+
+	// Keep the permissions of an existing file, as ioutil.WriteFile does.
+	var keepMode bool
+	if fi, err := os.Stat(filename); err == nil && fi.Mode().IsRegular() {
+		perm, keepMode = fi.Mode().Perm(), true
+	}
+
+	var f *os.File
+	for i := 0; ; i++ {
+		tmp := filepath.Join(dir, fmt.Sprintf(".%s.tmp-%d-%d", name, os.Getpid(), rand.Uint32()))
+		f, err = os.OpenFile(tmp, os.O_WRONLY|os.O_CREATE|os.O_EXCL, perm)
+		if os.IsExist(err) && i < 100 {
+			continue
+		} else if err != nil {
+			return err
+		}
+		break
+	}
+	defer func() {
+		if err != nil {
+			f.Close()
+			os.Remove(f.Name())
+		}
+	}()
+
+	if keepMode {
+		// Not subject to umask, unlike the perm argument to OpenFile.
+		if err = os.Chmod(f.Name(), perm); err != nil {
+			return err
+		}
+	}
+	if _, err = f.Write(data); err != nil {
+		return err
+	}
+	if err = f.Sync(); err != nil {
+		return err
+	}
+	if err = f.Close(); err != nil {
+		return err
+	}
+	return os.Rename(f.Name(), filename)
 }
 
 func LoadMessageDir(dirPath string) ([]*fbb.Message, error) {
@@ -315,5 +381,5 @@ func SetUnread(msg *fbb.Message, unread bool) error {
 	if filePath == "" {
 		return fmt.Errorf("Missing X-FilePath header")
 	}
-	return ioutil.WriteFile(filePath, data, 0644)
+	return writeFileAtomic(filePath, data, 0644)
 }
